@@ -8,6 +8,8 @@
 (*   Fixed = FALSE  as found: return values of the fetches are ignored (locals keep whatever they held: modelled       *)
 (*                  as the marker -1 / the flag uninit), pointers are followed without any bound.                      *)
 (*                  Expected to violate BoundedDepth and NoUninit (MC_DnsParse_asfound*.cfg).                          *)
+(*   PtrMask = 1024 a 10-bit offset mask: pointers to offsets >= 1024 are followed to the wrong place.                  *)
+(*                  Expected to violate Conforms on the LARGE replies (MC_DnsParse_mask10.cfg).                        *)
 (*   ResetOnLabel   a limit that counts only consecutive pointers: a loop through an ordinary label is never cut.      *)
 (*                  Expected to violate BoundedDepth (MC_DnsParse_resetonlabel.cfg).                                   *)
 (*                                                                                                                     *)
@@ -15,6 +17,7 @@
 (* (well-formed replies give exactly the reference result DnsReply!Classify), Terminates (step bound).                 *)
 EXTENDS DnsGen, TLC
 CONSTANTS Fixed, MaxJumps, Dgrams,
+          PtrMask,       \* pointer offsets are taken modulo this: 16384 (14 bits) intended; 1024 = a 10-bit mask typo
           ResetOnLabel   \* defective limit: only CONSECUTIVE pointers are counted (an ordinary label resets the count)
 VARIABLES d, pc, pos, stack, ret, qd, an, cur, out, err, uninit, steps
 pvars == <<d, pc, pos, stack, ret, qd, an, cur, out, err, uninit, steps>>
@@ -72,7 +75,7 @@ NameStep ==
          IF Fixed /\ (~Has(d, f.pos, 2) \/ (IF ResetOnLabel THEN NewChain(f) > MaxJumps ELSE Len(stack) > MaxJumps)) THEN Fail
          ELSE LET low == IF Has(d, f.pos, 2) THEN B(d, f.pos + 1) ELSE 0
                   after == IF Has(d, f.pos, 2) THEN f.pos + 2 ELSE f.pos + 1
-                  tgt == (len - 192) * 256 + low
+                  tgt == ((len - 192) * 256 + low) % PtrMask
               IN IF tgt >= Len(d) /\ Fixed THEN Fail
                  ELSE /\ stack' = Append(SetTop([f EXCEPT !.pos = after]), FrameC(IF tgt < Len(d) THEN tgt ELSE after, NewChain(f)))
                       /\ UNCHANGED <<d, pc, pos, ret, qd, an, cur, out, err, uninit>> /\ Step
